@@ -363,6 +363,16 @@ func c05(c *an.Ctx) {
 	}
 }
 
+func init() {
+	// C05.R7 is the reopen rule shared with C17: appended to the C05 run
+	old := All["C05"].Run
+	All["C05"].Run = func(c *an.Ctx) {
+		old(c)
+		reopenKeepsSnapshotIndex(c, "C05.R7")
+	}
+	All["C05"].Rules += " R7"
+}
+
 func itoa(v int64) string {
 	if v == 0 {
 		return "0"
